@@ -135,6 +135,35 @@ func serverHelloMuts() []fieldMut {
 			}
 			return true
 		})},
+		{"sh_key_share_resized", sh(func(rg *rand.Rand, h *wire.ServerHello, ch *wire.ClientHello) bool {
+			// a group the client did send a share for (the selected one, or another of its
+			// shares), key material of a boundary length: the client gets past the group
+			// checks and has to validate the length itself
+			e := h.Ext(wire.ExtKeyShare)
+			if e == nil || len(e.Data) < 4 {
+				return false
+			}
+			g := uint16(e.Data[0])<<8 | uint16(e.Data[1])
+			cur := len(e.Data) - 4
+			if rg.Intn(3) == 0 {
+				var offered []uint16
+				for _, k := range ch.KeyShares {
+					if !wire.IsGREASE(k.Group) {
+						offered = append(offered, k.Group)
+					}
+				}
+				if len(offered) > 0 {
+					g = offered[rg.Intn(len(offered))]
+				}
+			}
+			sizes := []int{0, 1, 2, 16, 31, 32, 33, 64, 65, 66, 96, 97, 98, 132, 133, 134, 1087, 1088, 1089, 1119, 1120, 1121, cur - 1, cur + 1, cur / 2}
+			n := sizes[rg.Intn(len(sizes))]
+			if n < 0 {
+				n = 0
+			}
+			h.SetExt(wire.ExtKeyShare, append(be16(g), vec16(randBytes(rg, n))...))
+			return true
+		})},
 		{"sh_key_share_zero_point", sh(func(rg *rand.Rand, h *wire.ServerHello, ch *wire.ClientHello) bool {
 			e := h.Ext(wire.ExtKeyShare)
 			if e == nil || len(e.Data) < 4 {
@@ -1681,6 +1710,62 @@ func TestC33(t *testing.T) {
 		})
 	}
 
+	// ---- E: hostile post-handshake input, renegotiation above all ----
+	{
+		kinds := renegKinds()
+		scripts := renegScripts()
+		var cases []renegCase
+		for _, tg := range targets {
+			ch, err := tg.Probe("example.test")
+			if err != nil {
+				continue
+			}
+			o := OfferOf(ch, targetMinVersion(tg))
+			for _, k := range kinds {
+				if !k.ok(o) {
+					continue
+				}
+				for _, sc := range scripts {
+					cases = append(cases, renegCase{tg: tg, kind: k, script: sc, can13: has13x(o)})
+				}
+			}
+		}
+		n := mon.Pick(6000, 120000)
+		perm := Sub("C33reneg-sel", 0).Perm(len(cases))
+		parallelW(n, func(w, k int) {
+			if hangsSeen.Load() >= 5 || len(cases) == 0 {
+				return
+			}
+			cs := cases[perm[k%len(cases)]]
+			rg := Sub("C33reneg-flavour", k)
+			cs.seed = k
+			cs.warm13 = cs.can13 && rg.Intn(3) == 0
+			cs.reneg = []int{-1, -1, -1, int(tls.RenegotiateNever), int(tls.RenegotiateOnceAsClient), int(tls.RenegotiateFreelyAsClient)}[rg.Intn(6)]
+			cs.preRequest = rg.Intn(3) == 0
+			cs.requests = []int{1, 1, 1, 2, 3}[rg.Intn(5)]
+			cs.id = renegCaseID(cs)
+			mon.JournalSlot(fmt.Sprintf("w%02d", w), cs.id)
+			res := c33RunReneg(cs)
+			sig := map[string]string{"target": family(cs.tg.Name), "scenario": "post-handshake-" + cs.kind.name, "mutation": cs.script.name}
+			class := evaluate("", cs.id, res.c33Result, sig, res.recvBytes)
+			r.Count("post_handshake_cases", 1)
+			if res.phase == "warmup-failed" {
+				r.Count("post_handshake_warmup_failed", 1)
+			}
+			if res.gotHello2 {
+				r.Count("renegotiation_hellos_received", 1)
+				class += "+hello2"
+				if cs.warm13 {
+					r.Count("renegotiation_hellos_with_cached_tls13_session", 1)
+				}
+			}
+			r.Case(fmt.Sprintf("reneg|%s|%s|%s|warm=%v|%s", family(cs.tg.Name), cs.kind.name, cs.script.name, cs.warm13, class), true)
+			if k%499 == 0 {
+				r.Sample(map[string]any{"case": cs.id, "outcome": class, "client_err": fmt.Sprint(res.clientErr), "read_err": fmt.Sprint(res.readErr), "second_hello": res.gotHello2})
+			}
+		})
+	}
+
 	r.Count("message_types_mutated", int64(len(msgTypesSeen)))
 	r.Floor("mutations_applied", int64(mon.Pick(25000, 300000)))
 	r.Floor("client_completed_handshake", 50) // some mutations must be swallowed: deeper states reached
@@ -1689,6 +1774,9 @@ func TestC33(t *testing.T) {
 	r.Floor("alloc_cases", int64(mon.Pick(300, 5000)))
 	r.Floor("raw_stream_cases", int64(mon.Pick(10000, 200000)))
 	r.Floor("silent_server_cases", 50)
+	r.Floor("post_handshake_cases", int64(mon.Pick(6000, 120000)))
+	r.Floor("renegotiation_hellos_received", 1000)
+	r.Floor("renegotiation_hellos_with_cached_tls13_session", 100)
 	for _, mt := range []int{2, 8, 11, 15, 20, 4, 25, 12, 14} {
 		r.Floor(fmt.Sprintf("mutated_msgtype_%d", mt), 50)
 	}
@@ -1746,7 +1834,7 @@ func panicSite(p string) string {
 		if len(l) > 0 && l[0] != '\t' && containsStr(l, "refraction-networking/utls.") && !containsStr(l, "verif") {
 			if i := indexStr(l, "utls."); i >= 0 {
 				s := l[i+5:]
-				if j := indexStr(s, "("); j > 0 {
+				if j := indexStr(s, "("); j >= 0 {
 					// keep receiver types like (*Conn).foo
 					if s[0] == '(' {
 						if k := indexStr(s[1:], "("); k > 0 {
